@@ -448,7 +448,10 @@ pub fn folding(rec: &mut Rec, max_len: usize, max_depth: usize) {
                     }
                     let pts = vec![rho::<F>(rec.seed, 1), F::one()];
                     let etas: Vec<F> = rho_stream::<F>(rec.seed, 24, depth);
-                    if (1..=depth).all(|l| want[l].len() >= pts.len()) {
+                    // levels with fewer coefficients than evaluation points included (the folded polynomial is
+                    // then its own remainder)
+                    for pts in [pts.clone(), vec![pts[0]], vec![pts[0], pts[1], -F::one()]] {
+                        let tree = FoldedPolynomialTree::new(&stream, ch);
                         match catch(|| sck.open_folding(tree, &pts, &etas, 1 << 10)) {
                             Ok((rems, proof)) => {
                                 let mut comb = vec![F::zero(); want[1].len()];
